@@ -569,6 +569,61 @@ def wave_grammar(rng, derive=True):
     return items
 
 
+def shared_prefix_grammar(rng, derive=True):
+    """A chain N0 -> a c .., N1 -> a N0 .., N2 -> a N1 .. of nonterminals that all begin with the same terminal, used
+    in several *contexts* of the start enum (bare N_i; N_i behind distinct prefix terminals).  After `a` the kernels of
+    the contexts differ in which N_i they hold at dot 1 while the closures add the same rules at dot 0: states
+    whose cores are strict subsets of one another and mention the *same rules* at different dot positions.  A state
+    merge test weaker than equality of the (rule, dot) sets (containment one way, equal rule sets, equal sizes
+    counted per rule) merges them; the merged parser still accepts the language but shifts a token no sentence
+    allows, so errors are reported late.  Names are drawn at random so that every relative order occurs."""
+    tpool = ["Aa", "Bb", "Cc", "Dd", "Ee", "Kk", "Pp", "Qq", "Xx", "Yy", "Zz"]
+    rng.shuffle(tpool)
+    a, c = tpool[0], tpool[1]
+    tails, prefixes = tpool[2:5], tpool[5:9]
+    npool = ["Atom", "Pair", "Triple", "Item", "Node", "Unit", "Zed"]
+    rng.shuffle(npool)
+    k = rng.randint(2, 3)
+    chain = npool[:k]
+    top = npool[k]
+    attrs = ["#[derive(Debug)]"] if derive else []
+    used_ts = {a, c}
+
+    def fs(syms):
+        return {"kind": "tuple", "fields": [{"used": rng.random() < 0.8, "sym": x} for x in syms]}
+
+    decls = []
+    for i, n in enumerate(chain):
+        body = [sym_t(a), sym_t(c) if i == 0 else sym_n(chain[i - 1])]
+        if rng.random() < 0.3:
+            t = tails[i % len(tails)]; used_ts.add(t)
+            body.append(sym_t(t))
+        decls.append({"kind": "struct", "attrs": list(attrs), "name": n, "fieldset": fs(body)})
+    ctxs, seen = [], set()
+    # at least one context that holds several links at once and one that holds a single link
+    bare = rng.sample(range(k), rng.randint(2, k))
+    cands = [(None, i) for i in bare]
+    for p in prefixes[:rng.randint(1, 3)]:
+        for i in rng.sample(range(k), rng.randint(1, 2)):
+            cands.append((p, i))
+    rng.shuffle(cands)
+    for p, i in cands:
+        if (p, i) in seen:
+            continue
+        seen.add((p, i))
+        syms = ([sym_t(p)] if p else []) + [sym_n(chain[i])]
+        if p:
+            used_ts.add(p)
+        ctxs.append({"name": f"C{len(ctxs)}", "fieldset": fs(syms)})
+    decls.append({"kind": "enum", "attrs": list(attrs), "name": top, "variants": ctxs})
+    rng.shuffle(decls)
+    ts = [t for t in tpool if t in used_ts]
+    rng.shuffle(ts)
+    items = [{"kind": "start", "name": top}] + decls
+    items.append({"kind": "terminal", "attrs": list(attrs), "name": "Tok", "variants": [{"name": t, "type": "usize"} for t in ts]})
+    return items
+
+
 # ---- hand-written families that separate the grammar classes -------------------------------
 
 def _mk(start, structs_enums, terminals, derive=True):
